@@ -3,6 +3,7 @@ package main
 // Calls: builtins, inlining, calls by contract, externs, slots.
 
 import (
+	"sort"
 	"fmt"
 	"go/constant"
 	"go/types"
@@ -307,6 +308,14 @@ func (x *Exec) siteOrdinal(fn *ssa.Function, pos ssa.Instruction, short string) 
 	if m == nil {
 		m = map[ssa.Instruction]int{}
 		counts := map[string]int{}
+		type site struct {
+			ins ssa.Instruction
+			cc  *ssa.CallCommon
+			pos int
+			seq int
+		}
+		var sites []site
+		seq := 0
 		for _, b := range fn.Blocks {
 			for _, ins := range b.Instrs {
 				var cc *ssa.CallCommon
@@ -321,10 +330,21 @@ func (x *Exec) siteOrdinal(fn *ssa.Function, pos ssa.Instruction, short string) 
 				if cc == nil {
 					continue
 				}
-				n := calleeShortName(cc)
-				counts[n]++
-				m[ins] = counts[n]
+				seq++
+				sites = append(sites, site{ins, cc, int(instrPos(ins)), seq})
 			}
+		}
+		// the n-th call to a callee is counted in source order (stable under block reordering)
+		sort.SliceStable(sites, func(i, j int) bool {
+			if sites[i].pos != sites[j].pos && sites[i].pos > 0 && sites[j].pos > 0 {
+				return sites[i].pos < sites[j].pos
+			}
+			return sites[i].seq < sites[j].seq
+		})
+		for _, s := range sites {
+			n := calleeShortName(s.cc)
+			counts[n]++
+			m[s.ins] = counts[n]
 		}
 		siteCache[fn] = m
 	}
@@ -501,6 +521,9 @@ func (x *Exec) havocModItem(st *State, env *Env, m ModItem, classes map[string]b
 		// frame inside the array: indices outside [off+lo, off+hi) unchanged
 		st.assume(fmt.Sprintf("(forall ((i Int)) (! (=> (not (and (<= %s i) (< i %s))) (= (select %s i) (select (select %s %s) i))) :pattern ((select %s i))))",
 			addT(off, lot), addT(off, hit), na, h, arr, na))
+		if rng := x.elemRange[hn]; rng != "" {
+			st.assume(fmt.Sprintf("(forall ((i Int)) (! (and (<= 0 (select %s i)) (<= (select %s i) %s)) :pattern ((select %s i))))", na, na, rng, na))
+		}
 		x.setHeap(st, hn, hs, app("store", h, arr, na))
 	case *CIdent:
 		// raw class name or a whole-type shorthand
